@@ -5,6 +5,7 @@ thin callbacks over it), so order/once/complete reduce to the walker rules of C1
 the two callbacks and on the count check in PreparedStatementPlanner.
 """
 import ast
+import itertools
 
 from ..source import AnalysisError, norm, dotted, walk_no_nested
 from ..core import Ctx
@@ -66,7 +67,7 @@ def check_callback(ctx, fn, role):
     stubs = {'query_traversal': traverse, 'utils.query_traversal': traverse, 'copy.deepcopy': lambda it, x: list(x) if isinstance(x, list) else x,
              'deepcopy': lambda it, x: list(x) if isinstance(x, list) else x, 'copy.copy': lambda it, x: list(x) if isinstance(x, list) else x,
              'ast.Constant': lambda it, v, *a, **k: Obj('Constant', value=v), 'Constant': lambda it, v, *a, **k: Obj('Constant', value=v)}
-    it = Interp({'Parameter': set(), 'Constant': set()}, stubs)
+    it = Interp.for_file(ctx.src, UTILS, {'Parameter': set(), 'Constant': set()}, stubs)
     values = ["O'Brien", 5, 'a\\b "q" %s']
     caller_values = list(values)
     try:
@@ -120,102 +121,104 @@ def check_count(ctx):
     meths = {m.name: m for m in cls.body if isinstance(m, ast.FunctionDef)}
     for need in ('execute_steps', 'prepare_steps', 'get_statement_info'):
         ctx.need(need in meths, f'PreparedStatementPlanner.{need} not found')
-    ex = meths['execute_steps']
+    lifecycle_table(ctx, meths)
 
-    def is_count_test(t):
-        if isinstance(t, ast.Compare) and len(t.ops) == 1 and isinstance(t.ops[0], (ast.NotEq, ast.Eq)):
-            sides = [norm(t.left), norm(t.comparators[0])]
-            if all(s.startswith('len(') for s in sides) and any('stmt.params' in s or '.params' in s for s in sides) \
-                    and any(s == 'len(params)' for s in sides):
-                return 'ne' if isinstance(t.ops[0], ast.NotEq) else 'eq'
-        return None
 
-    def transfer(s, st):
-        for n in ast.walk(s) if not isinstance(s, (ast.If, ast.For, ast.While, ast.With, ast.Try)) else []:
-            if isinstance(n, ast.Call) and (dotted(n.func) or '').split('.')[-1] == 'fill_query_params':
-                ctx.count('fill_sites')
-                ctx.ob('C12.count-check', 'execute_steps:fill_query_params', st == 'checked',
-                       'execute_steps can reach fill_query_params without the test len(params) != len(stmt.params) having '
-                       'passed on that path: a wrong number of values is not rejected with PlanningException',
-                       file=PREP, line=n.lineno, witness='prepare "select ?, ?" then execute with [1]')
-        return st
+def lifecycle_table(ctx, meths):
+    """prepare_steps -> get_statement_info -> execute_steps interpreted (sa/interp.py) on one planner stand-in, for statement kinds x number of placeholders x
+    number of values: what is collected, stored, reported, checked and filled is compared by object identity."""
+    from ..interp import Interp, Obj, Raised, Env
+    pr, ex, gi = meths['prepare_steps'], meths['execute_steps'], meths['get_statement_info']
+    kinds = ('Select', 'Union', 'Insert', 'Update', 'Delete')
+    isa = {k: set() for k in kinds + ('CreateTable', 'Show')}
+    nrows = 0
+    for kind, n in itertools.product(kinds, (0, 2, 3)):
+        placeholders = [Obj('Parameter', value='?', alias=(Obj('Identifier', parts=['p']) if i % 2 else None), _i=i) for i in range(n)]
+        query = Obj(kind, left=Obj('Select', _part='left'), right=Obj('Select', _part='right'), targets=[], where=None, _whole=True)
+        planner = Obj('QueryPlanner', statement=None, query=None)
+        self_ = Obj('PreparedStatementPlanner', planner=planner)
+        log = []
 
-    def cond(test, st, branch):
-        k = is_count_test(test)
-        if k:
-            equal_branch = (branch is False) if k == 'ne' else (branch is True)
-            return 'checked' if equal_branch else 'mismatch'
-        return st
-
-    def join(a, b):
-        return a if a == b else 'unchecked'
-    res = Flow(transfer, join, cond).run(ex, 'unchecked')
-    # the mismatch branch must raise PlanningException
-    tests = [n for n in ast.walk(ex) if isinstance(n, ast.If) and is_count_test(n.test)]
-    ctx.ob('C12.count-check', 'execute_steps:test-exists', len(tests) >= 1,
-           'execute_steps has no comparison of len(params) with len(stmt.params)', file=PREP, line=ex.lineno)
-    for t in tests:
-        k = is_count_test(t.test)
-        body = t.body if k == 'ne' else t.orelse
-        raises = [s for s in body if isinstance(s, ast.Raise)]
-        okr = bool(raises) and isinstance(raises[0].exc, ast.Call) and dotted(raises[0].exc.func) == 'PlanningException'
-        ctx.ob('C12.count-check', 'execute_steps:mismatch-raises', okr,
-               'the value-count mismatch branch of execute_steps does not raise PlanningException', file=PREP, line=t.lineno)
-    # no returns/exits in state 'mismatch'
-    for r, st in res.returns:
-        ctx.ob('C12.count-check', f'execute_steps:return@{r.lineno - ex.lineno}', st != 'mismatch',
-               'execute_steps returns on the path where the number of values does not match', file=PREP, line=r.lineno)
-    # the statement filled is the statement prepared
-    pr = meths['prepare_steps']
-    qp = pr.args.args[1].arg
-    stored_query = [n for n in ast.walk(pr) if isinstance(n, ast.Assign) and norm(n.targets[0]) == 'self.planner.query']
-    ok1 = bool(stored_query) and all(norm(a.value) == qp for a in stored_query)
-    ctx.ob('C12.same-statement', 'prepare_steps:stores-query', ok1,
-           f'prepare_steps does not store its statement argument in self.planner.query ({[norm(a) for a in stored_query]})',
-           file=PREP, line=pr.lineno)
-    gp = [n for n in ast.walk(pr) if isinstance(n, ast.Call) and (dotted(n.func) or '').split('.')[-1] == 'get_query_params']
-    ok2 = len(gp) == 1 and len(gp[0].args) == 1 and norm(gp[0].args[0]) == qp
-    # ... and the name still denotes the whole statement there: every rebinding of it before the call is a copy of itself
-    if ok2:
-        rebinds = [n for n in ast.walk(pr) if isinstance(n, ast.Assign) and any(isinstance(t, ast.Name) and t.id == qp for t in n.targets) and n.lineno <= gp[0].lineno]
-        rebinds += [n for n in ast.walk(pr) if isinstance(n, (ast.For, ast.AugAssign)) and any(isinstance(x, ast.Name) and x.id == qp for x in ast.walk(n.target))]
-        whole = all(isinstance(n, ast.Assign) and norm(n.value) in (f'copy.deepcopy({qp})', f'{qp}.copy()', f'copy.copy({qp})', f'deepcopy({qp})') for n in rebinds)
-        ctx.ob('C12.same-statement', 'prepare_steps:collects-from-whole-statement', whole,
-               f'prepare_steps rebinds `{qp}` to a part of the statement ({[norm(n)[:50] for n in rebinds if not (isinstance(n, ast.Assign) and "copy" in norm(n.value))]}) before '
-               f'collecting the placeholders: placeholders outside that part are neither counted nor bound', file=PREP, line=gp[0].lineno,
+        def collect(it, q):
+            log.append(('collect', q))
+            return placeholders
+        stubs = {'utils.get_query_params': collect, 'get_query_params': collect,
+                 'copy.deepcopy': lambda it, x: x.clone() if isinstance(x, Obj) else x,
+                 'self.prepare_select': lambda it, q: [], 'self.prepare_show': lambda it, q: [], 'self.prepare_insert': lambda it, q: []}
+        it = Interp.for_file(ctx.src, PREP, isa, stubs)
+        label = f'{kind} with {n} placeholders'
+        try:
+            it.call_function(pr, [self_, query], {}, Env())
+            raised = None
+        except Raised as r:
+            raised = r.exc_name
+        nrows += 1
+        stmt = planner.attrs.get('statement')
+        collected = [q for what, q in log if what == 'collect']
+        ctx.ob('C12.same-statement', f'prepare_steps:stores-query:{label}', raised is None and planner.attrs.get('query') is query,
+               f'[{label}] prepare_steps must keep the statement it was given as the prepared statement (planner.query); '
+               f'{"it raised " + raised if raised else "planner.query is " + repr(planner.attrs.get("query"))[:60]}', file=PREP, line=pr.lineno)
+        whole = len(collected) == 1 and isinstance(collected[0], Obj) and collected[0].kind == kind and collected[0] == query
+        ctx.ob('C12.same-statement', f'prepare_steps:collects-from-whole-statement:{label}', whole,
+               f'[{label}] prepare_steps must collect the placeholders once, from (a copy of) the whole statement; it collected from '
+               f'{[repr(c)[:50] for c in collected]}: placeholders outside that part are neither counted nor bound', file=PREP, line=pr.lineno,
                witness='select a from t where b = ? union select a from u where c = ?')
-    ctx.ob('C12.same-statement', 'prepare_steps:collects-from-query', ok2,
-           f'prepare_steps does not collect placeholders from the statement it was given ({[norm(c) for c in gp]})',
-           file=PREP, line=pr.lineno)
-    if ok2:
-        par = getattr(gp[0], '_parent', None)
-        tgt = norm(par.targets[0]) if isinstance(par, ast.Assign) else None
-        flows = tgt is not None and any(isinstance(n, ast.Assign) and norm(n.targets[0]) == 'stmt.params' and norm(n.value) == tgt
-                                        for n in ast.walk(pr)) or tgt == 'stmt.params'
-        ctx.ob('C12.same-statement', 'prepare_steps:stmt.params', bool(flows),
-               'prepare_steps does not store the collected placeholders in stmt.params', file=PREP, line=gp[0].lineno)
-    # deepcopy between storing and collecting keeps planner.query unbound: accepted either way
-    fills = [n for n in ast.walk(ex) if isinstance(n, ast.Call) and (dotted(n.func) or '').split('.')[-1] == 'fill_query_params']
-    for c in fills:
-        a0 = c.args[0] if c.args else None
-        src_ok = False
-        if isinstance(a0, ast.Name):
-            for n in ast.walk(ex):
-                if isinstance(n, ast.Assign) and norm(n.targets[0]) == a0.id and norm(n.value) == 'self.planner.query' \
-                        and n.lineno < c.lineno:
-                    src_ok = True
-        elif a0 is not None and norm(a0) == 'self.planner.query':
-            src_ok = True
-        ctx.ob('C12.same-statement', 'execute_steps:fills-planner.query', src_ok and len(c.args) == 2 and norm(c.args[1]) == 'params',
-               f'execute_steps fills `{norm(a0) if a0 is not None else None}` with `{norm(c.args[1]) if len(c.args) > 1 else None}` '
-               f'instead of the prepared statement (self.planner.query) with the caller\'s values', file=PREP, line=c.lineno)
-    # get_statement_info: one entry per placeholder
-    gi = meths['get_statement_info']
-    loops = [n for n in ast.walk(gi) if isinstance(n, ast.For) and norm(n.iter).endswith('.params')]
-    ok3 = len(loops) == 1 and not any(isinstance(x, (ast.If, ast.Break, ast.Continue)) for x in ast.walk(loops[0])) and any(
-        isinstance(x, ast.Call) and isinstance(x.func, ast.Attribute) and x.func.attr == 'append' for x in ast.walk(loops[0]))
-    ctx.ob('C12.reports-n', 'get_statement_info', ok3,
-           'get_statement_info does not report exactly one parameter entry per collected placeholder', file=PREP, line=gi.lineno)
+        ctx.ob('C12.same-statement', f'prepare_steps:stmt.params:{label}', isinstance(stmt, Obj) and stmt.attrs.get('params') is placeholders,
+               f'[{label}] prepare_steps must store the collected placeholders in the statement record', file=PREP, line=pr.lineno)
+        if not (isinstance(stmt, Obj) and stmt.attrs.get('params') is placeholders):
+            continue
+        # what is reported
+        if 'columns' not in stmt.attrs or not isinstance(stmt.attrs.get('columns'), list):
+            stmt.attrs['columns'] = []
+        try:
+            info = Interp.for_file(ctx.src, PREP, isa, {}).call_function(gi, [self_], {}, Env())
+            got_n = len(info['parameters']) if isinstance(info, dict) and isinstance(info.get('parameters'), list) else None
+        except Raised as r:
+            got_n = f'raises {r.exc_name}'
+        ctx.ob('C12.reports-n', f'get_statement_info:{label}', got_n == n,
+               f'[{label}] get_statement_info reports {got_n} parameters, expected {n}: one entry per collected placeholder', file=PREP, line=gi.lineno)
+        # execution with m values
+        for m in sorted({max(n - 1, 0), n, n + 1}) + [None]:
+            planner2 = Obj('QueryPlanner', statement=Obj('Statement', params=list(placeholders), columns=[]), query=query)
+            self2 = Obj('PreparedStatementPlanner', planner=planner2)
+            values = None if m is None else [f'v{i}' for i in range(m)]
+            log2 = []
+            filled = Obj(kind, _filled=True)
+            stubs2 = {'utils.fill_query_params': lambda it, q, v: (log2.append(('fill', q, v)), filled)[1],
+                      'fill_query_params': lambda it, q, v: (log2.append(('fill', q, v)), filled)[1],
+                      'copy.deepcopy': lambda it, x: x.clone() if isinstance(x, Obj) else x,
+                      'self.plan_query': lambda it, q: (log2.append(('plan', q)), ['step'])[1]}
+            it2 = Interp.for_file(ctx.src, PREP, isa, stubs2)
+            try:
+                it2.call_function(ex, [self2] + ([] if values is None else [values]), {}, Env())
+                raised = None
+            except Raised as r:
+                raised = r.exc_name
+            nrows += 1
+            fills = [e for e in log2 if e[0] == 'fill']
+            plans = [e for e in log2 if e[0] == 'plan']
+            lab = f'execute_steps:{label}:{"no values" if m is None else str(m) + " values"}'
+            if m is None:
+                ok = raised is None and not fills and len(plans) == 1 and isinstance(plans[0][1], Obj) and (
+                    plans[0][1] is query or (plans[0][1].kind == kind and plans[0][1] == query))
+                msg = 'execution without values plans the prepared statement as it is'
+                rule = 'C12.same-statement'
+            elif m != n:
+                ok = raised == 'PlanningException' and not fills and not plans
+                msg = ('a number of values different from the number of placeholders must be refused with PlanningException before anything is filled or planned '
+                       '(a wrong number of values is otherwise bound to the wrong placeholders or crashes later)')
+                rule = 'C12.count-check'
+            else:
+                same_stmt = len(fills) == 1 and isinstance(fills[0][1], Obj) and (fills[0][1] is query or (fills[0][1].kind == kind and fills[0][1] == query))
+                ok = raised is None and same_stmt and (fills[0][2] is values or fills[0][2] == values) and len(plans) == 1 and plans[0][1] is filled
+                msg = 'the prepared statement (planner.query) is filled once with the caller\'s values and the filled statement is what is planned'
+                rule = 'C12.same-statement' if (raised is None and fills) else 'C12.count-check'
+            ctx.ob(rule, lab, ok,
+                   f'[{lab}] {msg}; it {"raised " + raised if raised else "did"} {[(e[0], repr(e[1])[:40]) for e in log2]}', file=PREP, line=ex.lineno,
+                   witness='prepare "select ?, ?" then execute with [1]')
+    ctx.setcount('fill_sites', 1)
+    ctx.setcount('lifecycle_rows', nrows)
+    ctx.floor('lifecycle_rows', 60)
 
 
 def run(ctx):
